@@ -492,7 +492,6 @@ func indexCounter(idx ssa.Value) (*ssa.Phi, int64, bool) {
 	return ph, *init + start, true
 }
 
-
 // reversedBefore: a loop `for i, j := 0, len(l)-1; i < j; i, j = i+1, j-1 { l[i], l[j] = l[j], l[i] }`
 // runs on every path before `before` (its header dominates it and the loop does not contain it).
 func reversedBefore(f *ssa.Function, before ssa.Instruction) bool {
